@@ -72,7 +72,7 @@ class A2(A):
     pass
 
 
-class B(State):
+class _GB[T](State):
     """a state type whose instances are FALSY (user types may define __bool__ / __len__): supplied is supplied"""
 
     # required, and a union: default construction fails with whatever the union validator raises (an ExceptionGroup,
@@ -87,6 +87,11 @@ class B(State):
         return iter(())
 
 
+# B is a SPECIALISATION of a generic state; its sibling specialisation - other type arguments with the same names
+# (list[int] / list[str]) - is a different state type that nobody ever supplies
+B = _GB[list[int]]
+B_SIBLING = _GB[list[str]]
+_SIBLING_DEFAULT = B_SIBLING(v=0)
 TYPES = {"A": A, "A2": A2, "B": B}
 _SUB = {t: type(T)(t + "Default", (T,), {"__module__": __name__}) for t, T in TYPES.items()}
 D_DEFAULT, D_MISSING, D_NOCTX, D_EXPLICIT = 91, 92, 93, 94
@@ -310,6 +315,12 @@ class World:
             return D_NOCTX
         except MissingState:
             return D_MISSING
+        if tname == "B":
+            try:
+                if ctx.state(B_SIBLING, default=_SIBLING_DEFAULT) is not _SIBLING_DEFAULT:
+                    return "a sibling specialisation nobody supplied is visible"
+            except MissingContext:
+                pass
         if s is self.explicit[tname]:
             return D_EXPLICIT
         if type(s) is not T:
